@@ -40,6 +40,17 @@ def _check_track(ctx: Ctx, res, tempo, items, rc, exhaustive_hint=False, fmt=0):
     chart, tr = T.parse_track(ctx, res, tempo, lines, header, rc, fmt=fmt)
     if tr is None:
         return None
+    # ticks that carry flag lines only (no lane, no open note): whether such a tick yields an event at all is
+    # not asserted here, but IF it does, the flag lines' length fields must not show up in it
+    by_tick: dict = {}
+    for it in items:
+        if it[1] == "N":
+            by_tick.setdefault(it[0], []).append(it[2])
+    flag_only = {t for t, idxs in by_tick.items() if all(i in (5, 6) for i in idxs)}
+    if flag_only:
+        got = {e.tick for e in tr.note_events}
+        exp = [x for x in exp if not (x["tick"] in flag_only and x["tick"] not in got)]
+        ctx.classes["flag_only_ticks"] += 1
     if not T.compare_notes(ctx, tr, exp, rc, {"ticks", "lanes", "sustain"}):
         return None
     tm = TempoModel(res, tempo)
@@ -212,6 +223,21 @@ def _tracks(draw, ctx):
     phrases = [[t, min(max_tick - t, ln)] for t, ln in
                sorted(draw(st.lists(st.tuples(tick_st, st.integers(0, 2000)), max_size=2)))]
     items = G.merge_track_items(notes, phrases, [])
+    if ticks and draw(st.integers(0, 4)) == 0:
+        # ticks that carry nothing but flag lines, with non-zero length fields ("flag lines never contribute a
+        # length"); never a forced flag before the first real note (refused by design)
+        used = set(ticks)
+        for t in draw(st.lists(tick_st, min_size=1, max_size=3, unique=True)):
+            if t in used:
+                continue
+            used.add(t)
+            mx = max_tick - t
+            kinds = draw(st.sampled_from([[6], [6], [5], [5, 6], [6, 5]]))
+            for k in kinds:
+                if k == 5 and t < ticks[0]:
+                    continue
+                items.append([t, "N", k, min(mx, draw(st.sampled_from([0, 1, 37, 96, tmap["res"], 100000])))])
+        items.sort(key=lambda it: it[0])
     lifted = G.lift_items(draw, items, tmap["res"], one_in=10, allow64=False)
     if lifted:
         # the whole track moved up across 2^31 / 2^32 / 2^33 under one (the fastest) tempo
